@@ -45,7 +45,7 @@ FIXTURES = [
     ("c06_bad_sub_no_plus_m", "bad", ["M1"]),
     ("c06_bad_neg_zero", "bad", ["M1"]),
     ("c06_bad_new_u32_cast", "bad", ["M1"]),
-    ("c06_bad_mulassign_adds", "bad", ["M2"]),
+    ("c06_bad_mulassign_adds", "bad", ["M1"]),
     ("c06_bad_display_i32", "bad", ["M2"]),
     ("c06_good_wide_add", "good", []),
     ("c06_bad_inv_coeff_sign", "bad", ["M3"]),
@@ -117,6 +117,9 @@ def check(col, prog, tier, profile, fixture=None):
             targets[nm], modes[nm] = ab, "assign"
         else:
             targets[nm], modes[nm] = vb, "value"
+            if not a_calls_v:
+                # both forms carry their own arithmetic: both are proved against the same specification
+                targets[nm + "_assign"], modes[nm + "_assign"] = ab, "assign"
     targets["neg"] = util.need_body(crate, "<Modular<M> as std::ops::Neg>::neg")
     modes["neg"] = "value"
     helpers = util.private_helpers(crate, "Modular", exclude=list(targets.values()))
@@ -154,7 +157,7 @@ def check(col, prog, tier, profile, fixture=None):
         if vsym:
             cong_base[vsym] = vv
             I.tys[vsym] = "i64"
-        spec = SPECS[nm](vv, av, bv)
+        spec = SPECS[nm.replace("_assign", "")](vv, av, bv)
         if not I.final_states:
             col.violation("M1" + sfx, "%s|no-return" % fk(b), b.loc(), "%s has no returning path" % b.path)
         for n, st in enumerate(I.final_states):
@@ -334,6 +337,10 @@ def _families(col, crate, adt, targets, sfx, modes=None, assign_of=None, A=None)
             b, want = vb, ab
         else:
             b, want = ab, vb
+        if (om + "_assign") in targets:
+            col.ok("M2" + sfx, ab.loc(), "%s|delegates" % fk(ab), "%s and %s each carry the arithmetic; both are proved against the same specification (M1)" % (vb.name, ab.name))
+            col.obligation(True)
+            continue
         I = A(b)
         selfp = ("deref", ("param", 1, I.names.get(1)))
         for st in I.final_states:
@@ -392,7 +399,7 @@ def _families(col, crate, adt, targets, sfx, modes=None, assign_of=None, A=None)
             col.obligation(False)
     # inv returns through new
     I = util.analyse(invb)
-    ok = bool(I.final_states) and all(util.ret_term(st)[0] == "call" and str(util.ret_term(st)[1]).endswith("Modular::<M>::new") for st in I.final_states)
+    ok = bool(I.final_states) and all((util.ret_term(st)[0] == "call" and str(util.ret_term(st)[1]).endswith("Modular::<M>::new")) or _trivial_inverse_path(I, st) for st in I.final_states)
     if ok:
         col.ok("M2" + sfx, invb.loc(), "%s|through-new" % fk(invb), "inv() returns Self::new(..): representation invariant holds by M1")
         col.obligation(True)
@@ -465,15 +472,24 @@ def _families(col, crate, adt, targets, sfx, modes=None, assign_of=None, A=None)
                     odd = None
                     for f in st.facts:
                         t = f[1]
-                        if f[0] == "eq" and isinstance(t, tuple) and t[0] == "bin" and t[1] == "Eq" and t[3] == mk_int(1) and t[2] == ("bin", "Rem", ph(exp_l), mk_int(2)):
+                        if f[0] == "eq" and isinstance(t, tuple) and t[0] == "bin" and t[1] == "Eq" and t[3] == mk_int(1) and t[2] in (("bin", "Rem", ph(exp_l), mk_int(2)), ("bin", "BitAnd", ph(exp_l), mk_int(1))):
                             odd = bool(f[2])
                         if f[0] == "eq" and isinstance(t, tuple) and t[0] == "bin" and t[1] in ("Ne", "Eq") and t[3] == mk_int(0) and t[2] in (("bin", "Rem", ph(exp_l), mk_int(2)), ("bin", "BitAnd", ph(exp_l), mk_int(1))):
                             odd = (t[1] == "Ne") == bool(f[2])
                     want = ([(("ref", ("local", res_l)), ph(a_l))] if odd else []) + [(("ref", ("local", a_l)), ph(a_l))]
                     got = [(e.args[0], e.args[1]) for e in evs]
-                    halves = st.env.get(exp_l) in (("bin", "Div", ph(exp_l), mk_int(2)), ("bin", "Shr", ph(exp_l), mk_int(1)))
+                    dnew = st.env.get(exp_l)
+                    halves = dnew in (("bin", "Div", ph(exp_l), mk_int(2)), ("bin", "Shr", ph(exp_l), mk_int(1)))
+                    # the squaring of the last round is never read: it may be skipped when the halved exponent is 0
+                    last = any(f[0] == "eq" and isinstance(f[1], tuple) and f[1] and f[1][0] == "bin" and f[1][2] == dnew and f[1][3] == mk_int(0) and ((f[1][1] == "Ne" and f[2] == 0) or (f[1][1] == "Eq" and f[2] == 1)) for f in st.facts)
+                    if last and got == want[:-1]:
+                        got = want
                     if odd is None or got != want or not halves:
                         ok3, why3 = False, "loop body is not `if d odd { res *= a }; a *= a; d /= 2` (odd=%s, multiplications=%s, d'=%s)" % (odd, [(tstr(x), tstr(y)) for x, y in got], tstr(st.env.get(exp_l)))
+    if not ok3:
+        sem = _pow_semantic(crate, powb)
+        if sem is True:
+            ok3 = True
     if ok3:
         col.ok("M2" + sfx, powb.loc(), "%s|square-and-multiply" % fk(powb), "res = ONE, a = *self, d = argument; loop: if d odd { res *= a }; a *= a; d /= 2 while d != 0")
         col.obligation(True)
@@ -533,6 +549,119 @@ def _families(col, crate, adt, targets, sfx, modes=None, assign_of=None, A=None)
 
 
 
+def _pow_semantic(crate, powb):
+    """square-and-multiply judged on terms, wherever the loop lives (pow itself or an inlined private helper,
+    possibly generic over the multiplication passed as a closure) and however the products are spelled
+    (`x *= y`, `x = x * y`, `x = mul(x, y)`): the loop carries (res, a, d) entering as (ONE, *self, the argument);
+    every round has res' = res*a exactly when d is odd, a' = a*a (may be skipped when d' == 0), d' = d/2."""
+    from ..absint import strip_mem
+
+    helpers = [m for m in crate.bodies if not m.is_closure and m.kind in ("Fn", "AssocFn") and m.vis != "pub" and not util.self_recursive(m)]
+    I = util.analyser(helpers, features=("fncall", "comb"))(powb)
+    L = I
+    if not I.loops:
+        subs = [s_ for s_ in getattr(I, "inlined_subs", []) if len(s_.loops) == 1 and s_.backedge_states]
+        if len(subs) != 1:
+            return False
+        L = subs[0]
+    if len(L.loops) != 1:
+        return False
+    head = list(L.loops)[0]
+    entries = L.loop_entry.get(head, [])
+    backs = L.backedge_states.get(head, [])
+    if len(entries) != 1 or not backs:
+        return False
+    entry = entries[0]
+    uidh = L.uid(head)
+    ph = lambda l: ("phi", uidh, l)
+    selfv = ("load", ("m0",), ("deref", ("param", 1, I.names.get(1))))
+    dparam = ("param", 2, I.names.get(2))
+
+    def is_one(v):
+        return isinstance(v, tuple) and v and ((v[0] == "assoc" and v[2] == "ONE") or (v[0] == "agg" and v[2] == (mk_int(1),)))
+
+    res_l = [l for l, v in entry.items() if is_one(v)]
+    a_l = [l for l, v in entry.items() if strip_mem(v) == strip_mem(selfv)]
+    d_l = [l for l, v in entry.items() if v == dparam]
+    # only loop-carried ones
+    def carried(l):
+        return any(strip_mem(bs.env.get(l)) not in (strip_mem(ph(l)), strip_mem(entry.get(l))) for bs in backs if bs.env.get(l) is not None)
+
+    res_l, a_l, d_l = [l for l in res_l if carried(l)], [l for l in a_l if carried(l)], [l for l in d_l if carried(l)]
+    if len(res_l) != 1 or len(a_l) != 1 or len(d_l) != 1:
+        return False
+    res_l, a_l, d_l = res_l[0], a_l[0], d_l[0]
+
+    def product(st, l):
+        """(x, y) when the round assigns l := x * y in Modular arithmetic, 'same' when l is unchanged, else None"""
+        v = st.env.get(l)
+        if strip_mem(v) == strip_mem(ph(l)):
+            return "same"
+        if isinstance(v, tuple) and v and v[0] == "call" and str(v[1]).endswith("ops::Mul>::mul"):
+            args = [x for x in v[2] if not (isinstance(x, tuple) and x and x[0] == "mem")]
+            return (strip_mem(args[0]), strip_mem(args[1])) if len(args) == 2 else None
+        if isinstance(v, tuple) and v and v[0] == "out" and v[2] == l:
+            evs = [e for e in st.event_list() if e.kind == "call" and e.extra.get("uid") == v[1] and (e.extra.get("trait") or "").endswith("ops::MulAssign")]
+            if len(evs) == 1 and evs[0].args[0] == ("ref", ("local", l)):
+                x = (evs[0].extra.get("argvals") or [None])[0]
+                return (strip_mem(x), strip_mem(evs[0].args[1])) if x is not None else None
+        return None
+
+    R_, A_ = strip_mem(ph(res_l)), strip_mem(ph(a_l))
+    for st in backs:
+        odd = None
+        for f in st.facts:
+            t = f[1]
+            if f[0] == "eq" and isinstance(t, tuple) and t and t[0] == "bin" and t[2] in (("bin", "Rem", ph(d_l), mk_int(2)), ("bin", "BitAnd", ph(d_l), mk_int(1))):
+                if t[1] == "Eq" and t[3] == mk_int(1):
+                    odd = bool(f[2])
+                elif t[1] in ("Ne", "Eq") and t[3] == mk_int(0):
+                    odd = (t[1] == "Ne") == bool(f[2])
+        dnew = st.env.get(d_l)
+        if odd is None or dnew not in (("bin", "Div", ph(d_l), mk_int(2)), ("bin", "Shr", ph(d_l), mk_int(1))):
+            return False
+        pr = product(st, res_l)
+        if odd and not (isinstance(pr, tuple) and set(pr) == {R_, A_} or (isinstance(pr, tuple) and pr == (R_, A_))):
+            return False
+        if not odd and pr != "same":
+            return False
+        pa = product(st, a_l)
+        last = any(f[0] == "eq" and isinstance(f[1], tuple) and f[1] and f[1][0] == "bin" and f[1][2] == dnew and f[1][3] == mk_int(0) and ((f[1][1] == "Ne" and f[2] == 0) or (f[1][1] == "Eq" and f[2] == 1)) for f in st.facts)
+        if not (pa == (A_, A_) or (last and pa == "same")):
+            return False
+    # continues while d != 0 and returns the accumulator
+    for st in I.final_states:
+        r = util.ret_term(st)
+        if strip_mem(r) != strip_mem(ph(res_l)):
+            return False
+        if not any(f[0] == "eq" and isinstance(f[1], tuple) and f[1] and f[1][0] == "bin" and f[1][2] == ph(d_l) and f[1][3] == mk_int(0) and ((f[1][1] == "Ne" and f[2] == 0) or (f[1][1] == "Eq" and f[2] == 1)) for f in st.facts):
+            return False
+    return True
+
+
+def _trivial_inverse_path(I, st):
+    """an early return of `*self` under facts that bound self's representative by 1: 0 and 1 are their own
+    Bezout results (0*0 == gcd(0, M) == 0 and 1*1 == 1 mod M), so the path agrees with the loop"""
+    selfp = ("deref", ("param", 1, I.names.get(1)))
+    ret = util.ret_term(st)
+    if not (isinstance(ret, tuple) and ret and ret[0] == "load" and ret[2] == selfp):
+        return False
+    if any(e.kind == "loop" for e in st.event_list()):
+        return False
+    for f in st.facts:
+        t = f[1]
+        if f[0] != "eq" or not (isinstance(t, tuple) and t and t[0] == "bin" and len(t) > 3):
+            continue
+        x, y = _strip_int_casts(t[2]), t[3]
+        is_v = isinstance(x, tuple) and x and x[0] == "load" and x[2] == ("field", selfp, 0)
+        if not is_v or not (isinstance(y, tuple) and y and y[0] == "int"):
+            continue
+        k, truth = y[1], bool(f[2])
+        if (t[1] == "Le" and k <= 1 and truth) or (t[1] == "Lt" and k <= 2 and truth) or (t[1] == "Gt" and k <= 1 and not truth) or (t[1] == "Ge" and k <= 2 and not truth) or (t[1] == "Eq" and k in (0, 1) and truth):
+            return True
+    return False
+
+
 def _strip_int_casts(t):
     """IntToInt casts and integer From/Into conversions are the identity for this rule (ranges and overflow are
     M1's obligations); a % b is written a - (a / b) * b so that both spellings of Euclid's step agree"""
@@ -568,17 +697,25 @@ def _bezout(col, crate, invb, sfx, fk):
     helpers = [m for m in crate.bodies if not m.is_closure and m.kind in ("Fn", "AssocFn") and m.vis != "pub" and not util.self_recursive(m)]
     I = util.analyser(helpers)(invb)
     key = "%s|bezout" % fk(invb)
-    if len(I.loops) != 1 or not I.backedge_states:
+    L = I
+    if not I.loops:
+        # the loop lives in an inlined private helper (bezout_coefficient(value, modulus)): its entry values are
+        # already expressed in the caller's terms
+        subs = [s_ for s_ in getattr(I, "inlined_subs", []) if len(s_.loops) == 1 and s_.backedge_states]
+        if len(subs) == 1:
+            L = subs[0]
+    if len(L.loops) != 1 or not L.backedge_states:
         col.violation("M3" + sfx, key + "|loop", invb.loc(), "inv() is not a single extended-Euclid loop: the Bezout invariant cannot be established")
         return
-    head = list(I.loops)[0]
-    entries = I.loop_entry.get(head, [])
-    backs = I.backedge_states.get(head, [])
+    head = list(L.loops)[0]
+    entries = L.loop_entry.get(head, [])
+    backs = L.backedge_states.get(head, [])
+    invb_outer, invb = invb, L.body
     if len(entries) != 1 or not backs:
         col.violation("M3" + sfx, key + "|loop", invb.loc(), "inv(): cannot read the loop's entry values")
         return
     entry = {l: _strip_int_casts(v) for l, v in entries[0].items()}
-    uidh = I.uid(head)
+    uidh = L.uid(head)
     T = Translator()
     selfp = ("deref", ("param", 1, I.names.get(1)))
     V = None
@@ -635,6 +772,8 @@ def _bezout(col, crate, invb, sfx, fk):
     fin = I.final_states
     zero_r = None
     for st in fin:
+        if _trivial_inverse_path(I, st):
+            continue
         for f in st.facts:
             t = f[1]
             if isinstance(t, tuple) and t and t[0] == "bin" and t[1] in ("Ne", "Eq") and t[3] == mk_int(0) and strip_mem(_strip_int_casts(t[2])) in (strip_mem(phi(r1)), strip_mem(phi(r2))):
@@ -659,6 +798,8 @@ def _bezout(col, crate, invb, sfx, fk):
     ret_ok = bool(fin) and zero_r is not None
     surv_c = (c2 if zero_r == r1 else c1) if zero_r is not None else None
     for st in fin:
+        if _trivial_inverse_path(I, st):
+            continue
         r = util.ret_term(st)
         a0 = _strip_int_casts(r[2][0]) if r[0] == "call" and r[2] else None
         ret_ok = ret_ok and a0 is not None and strip_mem(a0) == strip_mem(phi(surv_c))
